@@ -126,6 +126,7 @@ func (t *Tokenizer) Load(r io.Reader, handler TokenHandler) (err error) {
 		if err != nil {
 			return
 		}
+		t.noff -= len(buf) - skip
 		skip = 0
 		if eof {
 			break
@@ -468,7 +469,7 @@ func (t *Tokenizer) tokenizeBuffer(buf []byte, last bool) error {
 	}
 	if last {
 		if 0 < len(t.starts) || len(t.mode) == 256 { // valid finishing maps are one byte longer
-			return t.newError(off, "incomplete JSON")
+			return t.newError(len(buf), "incomplete JSON")
 		}
 		if t.mode[256] == 'n' {
 			t.handleNum()
